@@ -6,6 +6,36 @@ VERIF = os.path.dirname(os.path.dirname(os.path.abspath(__file__)))
 ALL = [f"C{i:02d}" for i in range(1, 21)]
 
 CLAIMED = {
+    "C05": dict(
+        technique="Coq proof by induction over operation histories of a memo-table state machine (history independence, cache invariant); differential runs of query histories on the real parser and LM objects against fresh objects",
+        text="The prefix-keyed chart cache (recursive fill through x[:-1], clear_cache) is modelled as a state machine over immutable columns and it is proved that for every history of queries and clears every answer equals the answer of a fresh object to that query, and that every cached chart is the chart of its prefix. On the implementation, random histories over nested and sibling prefixes on all eight parser / language-model object kinds are compared query by query with brand-new objects, cold/warm/cleared caches on 100-300 token contexts are compared, and rules/V/S are snapshotted around every history and every transformation.",
+        note="Partial: columns are immutable values in the model, so CPython aliasing (shared Column objects, defaultdict insert-on-read on older columns) is exhibited only by the differential run, not by the theorem.",
+        design="§4 C05",
+    ),
+    "C11": dict(
+        technique="Coq proofs: forward pass = sum over enumerated accepting paths; epsilon removal = matrix form for any closure table; for epsilon-acyclic machines m(xs) = sum over all paths incl. epsilon arcs; Lehmann closure fixpoint; vm_compute correspondence against the model and an exact matrix oracle",
+        text="For every automaton over every commutative semiring the forward pass is proved equal to the sum over all accepting paths; epsilon removal is proved to leave no epsilon arcs and to compute alpha K A K ... K omega; for epsilon-acyclic machines over any star semiring the library's m(xs) (Lehmann closure + epsilon removal + forward) is proved equal to the sum over ALL accepting paths including epsilon arcs; in general the closure satisfies K = I + EK = I + KE. m(xs), epsremove and total_weight are compared with the Coq model (Qc, exact star) on automata with epsilon cycles, parallel arcs, dead and unreachable states.",
+        note="Partial: for epsilon-cyclic machines the 'sum over all paths' is a limit; the theorem gives the closure equations and the correspondence compares with the exact inverse of I - E.",
+        design="§4 C11",
+    ),
+    "C12": dict(
+        technique="Coq proofs of the language-level laws of union, reversal, injective renaming, concatenation (split convolution), Kleene plus (unfolding), one/zero/lift; vm_compute correspondence of nested expressions",
+        text="Union, reversal and injective renaming are proved at the level of string weights for all automata and semirings; concatenation is proved to be the convolution over splits and Kleene plus to satisfy A+ = A + A.A+ (sums over all paths including the epsilon links), one/zero/lift are characterised. Nested random expressions (depth <= 3, operands with epsilon arcs and states both initial and final) are evaluated by the implementation (both WFSA classes) and by the Coq model of the same constructions.",
+        note="Partial: star with a non-zero empty-string weight and operands with epsilon arcs inside concat/plus are covered by the correspondence (model = Lehmann closure + forward), not by the term-wise theorems.",
+        design="§4 C12",
+    ),
+    "C13": dict(
+        technique="Coq proofs over an abstract field: pushing is stochastic and language-preserving; residual invariant of the weighted subset construction (determinised value = input value); Coq checkers + reference semantics evaluated on every automaton the implementation returns",
+        text="Over any field, pushing with backward weights is proved to make every kept state's outgoing plus final mass one and to preserve every string weight; the step of the weighted subset construction is proved to maintain forward(xs) = c . Q, so the determinised automaton gives every string its original weight whenever the normalisers are non-zero. determinize, min_det, push, trim and trim_vals are run on acyclic automata (epsilon arcs, dead states, several initial states); their results are read back, re-evaluated by the Coq model on all strings and checked by the Coq checkers for determinism, stochasticity and trimness.",
+        note="Partial: termination of determinisation and Brzozowski minimisation are not modelled; min_det and trim are decided by read-back checks only.",
+        design="§4 C13",
+    ),
+    "C15": dict(
+        technique="Coq proofs: Lehmann elimination yields K = I + AK = I + KA in every star semiring; acyclic closure = power sum; Boolean closure = reachability; block solvers satisfy x = xA + b / x = Ax + b; sound SCC checker; vm_compute correspondence incl. translation validation of Tarjan's output",
+        text="Lehmann's elimination is proved to return a solution of both closure equations whenever its pivot stars are defined, to equal the sum over all paths on acyclic graphs and reachability over the Boolean semiring; the block solvers are proved correct for every forward-ordered partition, and the SCC checker is proved sound. closure_scc_based, closure_reference, solve_left/right are compared with the Coq models and the exact inverse; the implementation's block list is checked by the Coq checker on every graph.",
+        note="Partial: Tarjan's algorithm itself is validated per input by the verified checker, not proved for all graphs; minimality (least solution) over the reals is not formalised beyond the acyclic and Boolean cases.",
+        design="§4 C15",
+    ),
     "C01": dict(
         technique="Coq proofs: regenerated prefix transducer (each string/prefix pair exactly once), Boolean prefix weight <-> existence of a derivation tree whose yield begins with the context, EOS wrapping; vm_compute correspondence of the mask for both back-ends",
         text="The mask bit computed by the Coq prefix tabulation over the Boolean semiring is proved to hold exactly when some derivation tree has a yield beginning with the context (for every grammar: empty rules, unary cycles, recursion, useless symbols), the tabulation is proved to compute that reference, the regenerated prefix transducer is proved to relate every string to each of its prefixes with exactly one path, and EOS wrapping is proved to add exactly one trailing eos. BoolCFGLM(alg=earley|cky).p_next(ctx).keys() is compared with that mask on generated grammars and contexts (viable or not) under permutation/renaming and hash seeds.",
